@@ -17,6 +17,7 @@ inductive Err where
   | invalidContext
   | ctxFrameNotZero
   | nulInTopic
+  | undecodable
   deriving DecidableEq, Repr
 
 structure State where
@@ -71,13 +72,14 @@ def State.insertFrameCore (s : State) (f : Frame) : State :=
 
 /-- `Store::insert_frame` (also the whole of `POST /import`) -/
 def State.insertFrame (s : State) (f : Frame) : Except Err State :=
-  if hasNul f.topic then .error .nulInTopic else .ok (s.insertFrameCore f)
+  if !f.decodable then .error .undecodable
+  else if hasNul f.topic then .error .nulInTopic else .ok (s.insertFrameCore f)
 
 /-- `Store::append`, first part: the `xs.context` branch / the registry check -/
 def State.appendPre (s : State) (f : Frame) : Except Err (State × Frame) :=
   if f.topic = xsContext then
     if f.ctx ≠ 0 then .error .ctxFrameNotZero
-    else .ok ({ s with contexts := ctxInsert f.id s.contexts }, { f with ttl := some .forever })
+    else .ok (s, { f with ttl := some .forever })
   else if f.ctx ∈ s.contexts then .ok (s, f)
   else .error .invalidContext
 
@@ -93,6 +95,7 @@ def State.appendStore (s : State) (f : Frame) : Except Err (State × Frame) :=
   if hasNul f.topic then .error .nulInTopic
   else if f.ttl = some .ephemeral then
     .ok ({ s with bcast := s.bcast ++ [f] }, f)
+  else if !f.decodable then .error .undecodable
   else
     let s1 := s.insertFrameCore f
     .ok ({ s1 with gcq := s1.gcq ++ headTask f, bcast := s1.bcast ++ [f] }, f)
